@@ -1,6 +1,8 @@
 package jp
 
 import (
+	"github.com/ohler55/ojg/alt"
+	"github.com/ohler55/ojg/gen"
 	"github.com/ohler55/ojg/internal/vref"
 	"github.com/ohler55/ojg/internal/vx"
 )
@@ -136,6 +138,51 @@ func VerifC13_Mutate() {
 	if pan {
 		return
 	}
+	// the same request on the same tree held as gen nodes
+	// (Del / DelOne on gen data pass jp's private delete marker through
+	// alt.Generify's reflection fallback, which the executor does not model:
+	// deletion on gen data is covered through Remove / RemoveOne)
+	withGen := vx.Param("GEN", 1) == 1 && op != opDel && op != opDelOne
+	var gd any
+	var gerr error
+	var gres any
+	if withGen {
+		gd = alt.Generify(mkData(shape))
+		gnew := gen.Int(999)
+		gtag := func(e any) (any, bool) {
+			n, _ := e.(gen.Node)
+			return gen.Array{gen.String("m"), n}, true
+		}
+		gpan := vx.Catch(func() {
+			switch op {
+			case opSet:
+				gerr = x.Set(gd, gnew)
+			case opSetOne:
+				gerr = x.SetOne(gd, gnew)
+			case opDel:
+				gerr = x.Del(gd)
+			case opDelOne:
+				gerr = x.DelOne(gd)
+			case opRemove:
+				gres, gerr = x.Remove(gd)
+			case opRemoveOne:
+				gres, gerr = x.RemoveOne(gd)
+			case opModify:
+				gres, gerr = x.Modify(gd, gtag)
+			case opModifyOne:
+				gres, gerr = x.ModifyOne(gd, gtag)
+			}
+		})
+		vx.Assert("no-panic:gen", !gpan)
+		if gpan {
+			withGen = false
+		} else {
+			vx.Assert("gen-error-agrees", (gerr == nil) == (err == nil))
+			if gerr != nil {
+				withGen = false
+			}
+		}
+	}
 	vx.Observe("err", err != nil)
 	if err != nil {
 		// an impossible request is reported as an error (the property does
@@ -266,6 +313,26 @@ func VerifC13_Mutate() {
 			}
 		}
 	}
+	// ... and held as gen nodes: the same effect as on the simple data (a *One
+	// form may pick another single location: then the reference decides)
+	if withGen {
+		safter, gafter := data, gsimple(gd)
+		if op == opRemove || op == opRemoveOne || op == opModify || op == opModifyOne {
+			safter, gafter = result, gsimple(gres)
+		}
+		same := vref.TreeEqual(gafter, safter)
+		if !same && (op == opSetOne || op == opDelOne || op == opRemoveOne || op == opModifyOne) {
+			same = mutationMatches(op, before, nodes, gsimple(gd), gsimple(gres), newVal)
+		}
+		vx.Assert("gen-mutation-agrees", same)
+	}
 	vx.Cover("changed", len(nodes) > 0)
 	vx.Cover("nothing-selected", len(nodes) == 0)
+}
+
+func gsimple(v any) any {
+	if n, ok := v.(gen.Node); ok && n != nil {
+		return n.Simplify()
+	}
+	return v
 }
